@@ -1180,6 +1180,169 @@ func c05(r *core.Run) {
 		o.Site(n)
 	})
 
+
+	r.Check("D5/K6/repr-float-precision", "the YAML→JSON bridge renders numbers through lang.Repr: a float64 is formatted with bitSize 64 and a float32 with bitSize 32 (formatting a float64 at 32 bits rounds YAML floats that JSON keeps exact)", func(o *core.O) {
+		n := 0
+		for _, f := range p.PkgFuncs("lib/lang") {
+			for _, c := range core.Calls(f, core.CallTo("strconv.FormatFloat")) {
+				n++
+				r.Fn(core.FuncName(f))
+				args := core.Args(c)
+				bits, ok := core.ConstInt(args[3])
+				if !ok {
+					o.Fail(p.InstrPos(c), "FormatFloat bitSize is not a constant")
+					continue
+				}
+				from32 := false
+				if cv, isConv := args[0].(*ssa.Convert); isConv {
+					if b, isB := cv.X.Type().Underlying().(*types.Basic); isB && b.Kind() == types.Float32 {
+						from32 = true
+					}
+				}
+				want := int64(64)
+				if from32 {
+					want = 32
+				}
+				if bits != want {
+					o.Fail(p.InstrPos(c), "%s formats a float%d with bitSize %d: the shortest representation is computed for the wrong precision", core.FuncName(f), want, bits)
+				}
+				if prec, ok := core.ConstInt(args[2]); !ok || prec != -1 {
+					o.Fail(p.InstrPos(c), "%s formats floats with a fixed precision instead of the shortest exact one (-1)", core.FuncName(f))
+				}
+			}
+		}
+		o.Site(n)
+	})
+
+	r.Check("D5/K6/config-key-letter-ranges", "config key normalisation classifies exactly 'A'..'Z' and 'a'..'z' as letters (inclusive bounds, evaluated from the comparisons of the rune with constants)", func(o *core.O) {
+		f := p.Func("lib/conf", "", "toCamelCase")
+		if f == nil {
+			// by role: the function of lib/conf comparing runes with both 'A' and 'z'
+			for _, g := range p.PkgFuncs("lib/conf") {
+				lo, hi := false, false
+				for _, in := range core.Instrs(g, func(in ssa.Instruction) bool { _, ok := in.(*ssa.BinOp); return ok }) {
+					b := in.(*ssa.BinOp)
+					if k, ok := core.ConstInt(b.Y); ok && k == 'A' {
+						lo = true
+					}
+					if k, ok := core.ConstInt(b.Y); ok && (k == 'z' || k == 'z'+1) {
+						hi = true
+					}
+				}
+				if lo && hi {
+					f = g
+				}
+			}
+		}
+		if !o.Need(f != nil, "lib/conf key normaliser (toCamelCase)") {
+			return
+		}
+		r.Fn(core.FuncName(f))
+		lower, upper := map[int64]bool{}, map[int64]bool{}
+		n := 0
+		for _, in := range core.Instrs(f, func(in ssa.Instruction) bool { _, ok := in.(*ssa.BinOp); return ok }) {
+			b := in.(*ssa.BinOp)
+			k, ok := core.ConstInt(b.Y)
+			op := b.Op
+			if !ok {
+				if k, ok = core.ConstInt(b.X); !ok {
+					continue
+				}
+				switch op { // const op v  ≡  v flip(op) const
+				case token.LSS:
+					op = token.GTR
+				case token.GTR:
+					op = token.LSS
+				case token.LEQ:
+					op = token.GEQ
+				case token.GEQ:
+					op = token.LEQ
+				}
+			}
+			if k < 60 || k > 126 {
+				continue
+			}
+			switch op {
+			case token.GEQ:
+				lower[k] = true
+			case token.GTR:
+				lower[k+1] = true
+			case token.LEQ:
+				upper[k] = true
+			case token.LSS:
+				upper[k-1] = true
+			default:
+				continue
+			}
+			n++
+		}
+		o.Site(n, core.FuncName(f))
+		for _, w := range []int64{'A', 'a'} {
+			if !lower[w] {
+				o.Fail(p.Pos(f.Pos()), "no lower bound %q for letters", rune(w))
+			}
+		}
+		for _, w := range []int64{'Z', 'z'} {
+			if !upper[w] {
+				o.Fail(p.Pos(f.Pos()), "no inclusive upper bound %q for letters (keys containing that letter would not be normalised)", rune(w))
+			}
+		}
+		for k := range lower {
+			if k != 'A' && k != 'a' {
+				o.Fail(p.Pos(f.Pos()), "unexpected letter-range lower bound %q", rune(k))
+			}
+		}
+		for k := range upper {
+			if k != 'Z' && k != 'z' {
+				o.Fail(p.Pos(f.Pos()), "unexpected letter-range upper bound %q", rune(k))
+			}
+		}
+	})
+
+	r.Check("D5/K8/httpc-path-not-pre-escaped", "the client puts path variables into URL.Path unescaped (URL.String escapes once; escaping before storing double-escapes, so the server parses a different value than was sent)", func(o *core.O) {
+		n := 0
+		for _, f := range p.PkgFuncs("api/httpc") {
+			for _, in := range core.Instrs(f, func(in ssa.Instruction) bool {
+				st, ok := in.(*ssa.Store)
+				return ok && core.FieldAddrName(st.Addr) == "URL.Path"
+			}) {
+				n++
+				r.Fn(core.FuncName(f))
+				isEscape := func(v ssa.Value) bool {
+					c, ok := v.(*ssa.Call)
+					if !ok {
+						return false
+					}
+					name := core.Short(core.CalleeName(c))
+					return name == "net/url.PathEscape" || name == "net/url.QueryEscape"
+				}
+				bad := core.DependsOn(in.(*ssa.Store).Val, isEscape)
+				// element stores into a slice the path is joined from
+				core.DependsOn(in.(*ssa.Store).Val, func(v ssa.Value) bool {
+					if _, isSlice := v.Type().Underlying().(*types.Slice); !isSlice || v.Referrers() == nil {
+						return false
+					}
+					for _, rf := range *v.Referrers() {
+						ia, ok := rf.(*ssa.IndexAddr)
+						if !ok {
+							continue
+						}
+						for _, r2 := range *ia.Referrers() {
+							if st, ok := r2.(*ssa.Store); ok && st.Addr == ssa.Value(ia) && core.DependsOn(st.Val, isEscape) {
+								bad = true
+							}
+						}
+					}
+					return false
+				})
+				if bad {
+					o.Fail(p.InstrPos(in), "%s stores an already escaped value into URL.Path", core.FuncName(f))
+				}
+			}
+		}
+		o.Site(n)
+	})
+
 }
 
 func b2i(b bool) int64 {
